@@ -106,7 +106,7 @@ def merge_tie():
 
 
 # ------------------------------------------------------------------------------------- 2b. enum rule tie
-def enum_tie(ranges, origin):
+def enum_tie(ranges, origin, regress=()):
     """underlying type of `enum { A = least, B = greatest }`: freshly built c2m and gcc (sizeof, _Alignof,
     signedness) against c2mEnumBase / gccEnumBase; c2m vs gcc is the property (enum_base_meets_gcc)"""
     src = ["#include <stdio.h>\n"]
@@ -117,12 +117,20 @@ def enum_tie(ranges, origin):
         src.append(f"  printf(\"N {i} %d %d %d\\n\", (int) sizeof(enum t{i}), (int) _Alignof(enum t{i}), (enum t{i}) -1 < 0);\n")
     src.append("  return 0;\n}\n")
     (r2, o2, e2), (rg, og, eg) = compile_run_both("".join(src), "enum")
-    if r2 != 0 and len(ranges) > 1:
-        # c2m rejects one of the declarations: evaluate every range on its own
-        st = {"ranges": 0, "c2m_eq_gcc": 0, "model_c2m_mismatch": 0, "model_gcc_mismatch": 0, "one_by_one": True}
+    # GCC diagnoses a range that no 64-bit type holds with the unconditional warning "enumeration values
+    # exceed range of largest integer" (and goes on with a wrapped value); c2mir makes it an error
+    dpath = os.path.join(WORK, f"enumdiag{next(_tu_n)}.c")
+    with open(dpath, "w") as f:
+        f.write("".join(src))
+    _, _, gdiag = run(["gcc", "-fsyntax-only", dpath], timeout=120)
+    os.remove(dpath)
+    gcc_rejects = "exceed range of largest integer" in gdiag
+    if (r2 != 0 or rg != 0 or gcc_rejects) and len(ranges) > 1:
+        # a compiler rejects one of the declarations: evaluate every range on its own
+        st = {"ranges": 0, "c2m_eq_gcc": 0, "both_reject": 0, "model_c2m_mismatch": 0, "model_gcc_mismatch": 0, "one_by_one": True}
         for rg1 in ranges:
-            s1 = enum_tie([rg1], origin)
-            for k in ("ranges", "c2m_eq_gcc", "model_c2m_mismatch", "model_gcc_mismatch"):
+            s1 = enum_tie([rg1], origin, regress)
+            for k in ("ranges", "c2m_eq_gcc", "both_reject", "model_c2m_mismatch", "model_gcc_mismatch"):
                 st[k] += s1[k]
         return st
 
@@ -133,25 +141,26 @@ def enum_tie(ranges, origin):
             if len(f) == 5 and f[0] == "N":
                 d[int(f[1])] = (int(f[2]), int(f[3]), int(f[4]))
         return d
-    pc, pg = parse(o2), parse(og)
+    pc, pg = parse(o2), ({} if gcc_rejects else parse(og))
     lines = drv([f"enum {mn} {mx}" for mn, mx in ranges])
     SIGNED = {"int": 1, "long": 1, "llong": 1, "uint": 0, "ulong": 0, "ullong": 0}
-    st = {"ranges": len(ranges), "c2m_eq_gcc": 0, "model_c2m_mismatch": 0, "model_gcc_mismatch": 0}
+    st = {"ranges": len(ranges), "c2m_eq_gcc": 0, "both_reject": 0, "model_c2m_mismatch": 0, "model_gcc_mismatch": 0}
     for i, (mn, mx) in enumerate(ranges):
         parts = [x.split() for x in lines[i].split("|")]
         try:
-            mc = (int(parts[0][3]), int(parts[0][3]), SIGNED[parts[0][2]])
-            mg = (int(parts[1][2]), int(parts[1][2]), SIGNED[parts[1][1]])
+            mc = (int(parts[0][3]), int(parts[0][3]), SIGNED[parts[0][2]]) if parts[0][4] == "ok=1" else None
+            mg = (int(parts[1][2]), int(parts[1][2]), SIGNED[parts[1][1]]) if parts[1][3] == "ok=1" else None
         except (IndexError, ValueError, KeyError):
             ck.broken_ties.append({"kind": "driver", "name": "mirdrv_c08 enum", "first_diff": {"line": lines[i]}})
             continue
         c, g = pc.get(i), pg.get(i)
-        if g != mg or G.enum_size(mn, mx) != mg[0]:
+        if g != mg or (mg is not None and G.enum_size(mn, mx) != mg[0]):
             st["model_gcc_mismatch"] += 1
             ck.broken_ties.append({"kind": "correspondence", "name": "gccEnumBase vs gcc",
                                    "first_diff": {"range": [mn, mx], "gcc": g, "model": mg}})
         if c == g:
             st["c2m_eq_gcc"] += 1
+            st["both_reject"] += c is None
             if c != mc:
                 st["model_c2m_mismatch"] += 1
                 ck.broken_ties.append({"kind": "correspondence", "name": "c2mEnumBase vs c2m (c2m agrees with gcc)",
@@ -160,12 +169,16 @@ def enum_tie(ranges, origin):
         if c is None:
             sig = ("C08:enum-negative-and-llong-max-rejected" if mn < 0 and mx == 2 ** 63 - 1 and "not represented by an int" in e2
                    else "C08:enum-rejected-by-c2m")
+        elif g is None:
+            sig = "C08:enum-accepted-by-c2m-rejected-by-gcc"
         elif c[:2] != g[:2]:
-            sig = "C08:enum-underlying-size" + ("+model-says-equal" if mc[:2] == mg[:2] else "")
+            sig = "C08:enum-underlying-size" + ("+model-says-equal" if mc is not None and mg is not None and mc[:2] == mg[:2] else "")
         elif g[0] == 8 and mn == 0:
             sig = "C08:enum64-without-negative-enumerator-is-signed"
         else:
             sig = "C08:enum-underlying-signedness"
+        if (mn, mx) in regress:
+            sig = "C08:regression-of-fixed-finding:" + sig.split(":", 1)[-1]      # never listed
         ck.violation({"stage": "tie", "theorem_or_correspondence": "enum_base_meets_gcc: c2m vs gcc",
                       "input": {"kind": "enum", "least": mn, "greatest": mx, "origin": origin,
                                 "c_source": f"enum e {{ A = {G.c_int(mn)}, B = {G.c_int(mx)} }};  /* sizeof, _Alignof, (enum e) -1 < 0 */"},
@@ -530,12 +543,15 @@ def main():
         cases = [rp.get("input", rp)]
         ck.log("replaying", cases[0])
     enum_cases = [(c["least"], c["greatest"]) for c in cases if c.get("kind") == "enum"]
+    enum_regress = {(c["least"], c["greatest"]) for c in cases if c.get("kind") == "enum" and c.get("expect") == "pass"}
     if not ck.replay:
         L63 = 2 ** 63
-        enum_cases += list(G.BOUND_ENUMS) + [(0, 0), (-7, 7), (0, L63 - 1), (-L63 + 1, 0), (-1, L63 - 1), (0, 2 ** 64 - 1)]
+        enum_cases += list(G.BOUND_ENUMS) + [(0, 0), (-7, 7), (0, L63 - 1), (0, L63), (-L63 + 1, 0), (-1, L63 - 1), (-1, L63),
+                                                (0, 2 ** 64 - 1), (-1, 2 ** 64 - 1)]
         enum_cases += [(-ck.rng.below(2) * ck.rng.below(2 ** 33), ck.rng.below(2 ** 33)) for _ in range(10)]
     if enum_cases:
-        est = enum_tie(sorted(set(enum_cases)), "corpus/boundaries/seed")
+        est = enum_tie(sorted(set(enum_cases)), "corpus/boundaries/seed", enum_regress)
+        est["regressions_replayed"] = len(enum_regress)
         ck.stage("enum-tie", **est)
         ck.cov["enum_tie"] = est
     lay_corpus = [G.from_tokens(c["decl"].split()) for c in cases if c.get("kind") == "layout"]
